@@ -23,6 +23,8 @@ fn grammar(names: &[&'static str], max_n: usize) -> Grammar {
         }
         leaves.push(Stmt::Incr(n.to_string()));
         leaves.push(Stmt::Decr(n.to_string()));
+        // a capture of one fixed text (not instrumented): the same text captured again after the name was rebound
+        leaves.push(Stmt::Capture(n.to_string(), vec![text("k")]));
         leaves.push(Stmt::Out(Expr::var(n)));
         leaves.push(Stmt::Include { name: Expr::s("p"), args: vec![(n.to_string(), Expr::s("?"))] });
         for m in names {
